@@ -32,6 +32,37 @@ def defined_names(tree):
 
 
 _KNOWN = None
+_KNOWN_SRC = None
+DRIFT_LIMIT = 8     # changed source lines per file (see DESIGN.md 9.6: seeded defects: median 3, 92 % below 8; refactorings: median 20)
+
+
+def normalised_lines(tree):
+    """the module's code as normalised text lines (ast.unparse: comments, blank lines and layout vanish; docstrings dropped)"""
+    import ast, copy
+    t = copy.deepcopy(tree)
+    for n in ast.walk(t):
+        if isinstance(n, (ast.FunctionDef, ast.AsyncFunctionDef, ast.ClassDef, ast.Module)) and n.body and \
+                isinstance(n.body[0], ast.Expr) and isinstance(getattr(n.body[0], "value", None), ast.Constant) and \
+                isinstance(n.body[0].value.value, str):
+            n.body = n.body[1:] or [ast.Pass()]
+    return [l.strip() for l in ast.unparse(t).splitlines() if l.strip()]
+
+
+def file_drift(model, rel):
+    """number of normalised source lines of `rel` that differ from the snapshot taken when the rules were written"""
+    import collections
+    global _KNOWN_SRC
+    if _KNOWN_SRC is None:
+        try:
+            _KNOWN_SRC = json.load(open(os.path.join(VERIF, "sa", "known_source.json")))
+        except OSError:
+            _KNOWN_SRC = {}
+    if rel not in _KNOWN_SRC:
+        return 0
+    then = collections.Counter(_KNOWN_SRC[rel])
+    now = collections.Counter(normalised_lines(model.mod(rel).tree))
+    return sum(((then - now) + (now - then)).values())
+
 
 
 def novelty_guard(model, ctx):
@@ -45,8 +76,6 @@ def novelty_guard(model, ctx):
             _KNOWN = {k: set(v) for k, v in json.load(open(os.path.join(VERIF, "sa", "known_names.json"))).items()}
         except OSError:
             _KNOWN = {}
-    if not _KNOWN:
-        return []
     new_names = set()
     for rel in model.all_files():
         try:
@@ -55,12 +84,30 @@ def novelty_guard(model, ctx):
             continue
         new_names |= now - _KNOWN.get(rel, set() if rel in _KNOWN else now)
     new_names = {n for n in new_names if not (n.startswith("__") and n.endswith("__"))}
-    if not new_names:
-        return []
     moved, keep = [], []
+    drift_cache = {}
     for v in ctx.violations:
         rel, _, line = v["where"].partition(":")
         hit = None
+        # rewritten anchor: the file the construct lives in differs from the source the rules were written against in more
+        # lines than a local defect touches — the rule's assumptions about where things are and how they are spelt are in doubt
+        if rel.startswith("amaranth/"):
+            if rel not in drift_cache:
+                try:
+                    drift_cache[rel] = file_drift(model, rel)
+                except Exception:
+                    drift_cache[rel] = 0
+            if drift_cache[rel] > DRIFT_LIMIT:
+                moved.append(f"{v['rule']}: {v['construct']}: {rel} differs from the source the rules were written against in "
+                             f"{drift_cache[rel]} lines (more than {DRIFT_LIMIT}): rewritten code, the rule's idiom may not apply "
+                             f"(its mismatch was: {v['message'][:160]})")
+                for o in ctx.obligations:
+                    if o.get("rule") == v["rule"] and o.get("construct") == v["construct"] and o.get("status") == "VIOLATED":
+                        o["status"] = "unrecognised"
+                continue
+        if not new_names:
+            keep.append(v)
+            continue
         try:
             line = int(line.split(":")[0])
             tree = model.mod(rel).tree
